@@ -87,6 +87,11 @@ func OpenReadable(reader io.ReaderAt, opts ...carv2.Option) (ReadableCar, error)
 	sc := &StorageCar{opts: carv2.ApplyOptions(opts...)}
 
 	rr := internalio.ToReadSeeker(reader)
+	// When the given io.ReaderAt is also an io.ReadSeeker its current read position says nothing
+	// about where the CAR begins: start from the beginning.
+	if _, err := rr.Seek(0, io.SeekStart); err != nil {
+		return nil, err
+	}
 	header, err := carv1.ReadHeader(rr, sc.opts.MaxAllowedHeaderSize)
 	if err != nil {
 		return nil, err
